@@ -3,18 +3,19 @@ package checks
 import (
 	"context"
 	"fmt"
+	"net/http"
 	"sync"
 	"time"
 
 	"github.com/prometheus/client_golang/prometheus"
 	"github.com/prometheus/prometheus/discovery/targetgroup"
-	"github.com/sirupsen/logrus"
 
 	"tkestack.io/kvass/pkg/discovery"
 	"tkestack.io/kvass/pkg/explore"
 	kscrape "tkestack.io/kvass/pkg/scrape"
 	"verif/engine/chk"
 	"verif/engine/pipe"
+	"verif/engine/rig"
 )
 
 // Free-running passes of the concurrent harness bodies, meant to be run from a binary built with
@@ -96,18 +97,19 @@ func racePassC20(args []string) int {
 		e := explore.New(sm, prometheus.NewRegistry(), h1Quiet())
 		var mu sync.Mutex
 		n := 0
-		e.VerifSetProbe(time.Millisecond, func(log logrus.FieldLogger, ji *kscrape.JobInfo, url string) (*kscrape.StatisticsSeriesResult, error) {
+		e.VerifSetRetryInterval(time.Millisecond)
+		net := &rig.Targets{}
+		net.Serve = func(req *http.Request) rig.Answer {
 			mu.Lock()
 			n++
 			k := n
 			mu.Unlock()
 			if k%3 != 0 {
-				return nil, fmt.Errorf("scripted failure")
+				return rig.Answer{Err: fmt.Errorf("scripted failure")}
 			}
-			r := kscrape.NewStatisticsSeriesResult()
-			r.ScrapedTotal, r.Total = 7, 10
-			return r, nil
-		})
+			return rig.Answer{Body: rig.Payload(7)}
+		}
+		sm.GetJob("A").Cli = &http.Client{Transport: net}
 		_ = e.ApplyConfig(info)
 		e.UpdateTargets(map[string][]*discovery.SDTargets{"A": sds})
 		ctx, cancel := context.WithCancel(context.Background())
